@@ -302,7 +302,7 @@ def _float_leaf(d):
 def check(spec):
     import pennylane as qp
 
-    o, rt = spec["o"], spec["rt"]
+    o, rt = O.canon(spec["o"]), spec["rt"]
     lab = O.label(o)
     mv_fn = (o.get("mv") or {}).get("fn") if o["k"] == "mp" else None
     if mv_fn and mv_fn not in ("id", "list"):
